@@ -1051,6 +1051,8 @@ class Interp(object):
         tbl = self._dictcomp_over_counted_seq(node, first, sub)
         if tbl is None:
             tbl = self._dictcomp_keyed_by_elements(node, first, frame)
+        if tbl is None:
+            tbl = self._dictcomp_over_abstract_values(node, first, sub)
         if tbl is not None:
             return tbl
         d = DictVal()
@@ -1093,6 +1095,39 @@ class Interp(object):
             if it2.p.branch(z3.Contains(xs.term, z3.Unit(k))):
                 return True, value
             return False, None
+        d.base = base
+        return d
+
+    def _dictcomp_over_abstract_values(self, node, first, sub):
+        """Engine rule (over-approximation, sound for proving):  {K(x): V(x) for x in d.values()}  over an
+        abstractly given dictionary d (integer keys).  A lookup either misses, or hits an x that is the value of
+        *some* key of d with K(x) equal to the key looked up (which of several such x wins, and that a miss
+        means no such x exists, is not modelled)."""
+        g = node.generators[0]
+        if len(node.generators) != 1 or g.ifs or not (isinstance(first, IterSource) and first.kind == 'dictvalues'):
+            return None
+        src = first.data
+        interp = self
+        d = DictVal()
+        d.size = None
+
+        def base(it2, key):
+            from . import dicts, ops
+            if not it2.p.branch(it2.p.fresh('comprehension_has_key', smt.Bool)):
+                return False, None
+            k0 = it2.p.fresh_int('some_key')
+            found, x = dicts.lookup(it2, src, k0)
+            if not found:
+                raise PathEnd('the value comes from a key of the source dictionary')
+            fr = interp.comp_frame(sub)
+            interp.assign(g.target, x, fr)
+            kx = interp.eval(node.key, fr)
+            eq = ops.values_equal(it2, kx, key)
+            if eq is False:
+                raise PathEnd('key differs')
+            if eq is not True:
+                it2.p.assume(eq)
+            return True, interp.eval(node.value, fr)
         d.base = base
         return d
 
